@@ -393,6 +393,34 @@ func (c *Ctx) lexModel() (*lexModel, string) {
 			}
 		}
 	}
+	if m.state == nil {
+		// or the struct only keeps the position (and a copy of the input that is not what is indexed): an
+		// int field of a local struct whose loads index the input parameter
+		ir.Instrs(fn, func(in ssa.Instruction) {
+			lk, ok := in.(*ssa.Index)
+			if !ok || lk.X != ssa.Value(param) || m.state != nil {
+				return
+			}
+			ld, isLd := lk.Index.(*ssa.UnOp)
+			if !isLd || ld.Op != token.MUL {
+				return
+			}
+			fa, isFA := ld.X.(*ssa.FieldAddr)
+			if !isFA {
+				return
+			}
+			if al, isAl := fa.X.(*ssa.Alloc); isAl && al.Parent() == fn {
+				m.state = al
+				for _, u := range *param.Referrers() {
+					if st, okS := u.(*ssa.Store); okS && st.Val == ssa.Value(param) {
+						if fa2, isFA2 := st.Addr.(*ssa.FieldAddr); isFA2 && fa2.X == ssa.Value(al) {
+							m.usageField = fa2.Field
+						}
+					}
+				}
+			}
+		})
+	}
 	if m.state != nil {
 		// the struct must stay local: only field addresses are taken; the input field is stored once
 		nUsage := 0
@@ -411,7 +439,7 @@ func (c *Ctx) lexModel() (*lexModel, string) {
 				return nil, "the scanner state struct is used other than through its fields (method not inlined, or it escapes)"
 			}
 		}
-		if nUsage != 1 {
+		if nUsage != 1 && m.usageField >= 0 {
 			return nil, "the input string is re-assigned during scanning"
 		}
 	}
